@@ -142,6 +142,12 @@ pub struct OpInfo {
     pub version_changed: bool,
     /// for Ingest: the global seqno assigned
     pub ingest_seqno: Option<SeqNo>,
+    /// for Fifo: ids of the tables that left the version
+    pub dropped_tables: Vec<u64>,
+    /// anomalies seen by the instrumented compaction filter during this op
+    pub filter_anomalies: Vec<String>,
+    /// number of entries the filter was shown during this op
+    pub filter_shown: usize,
 }
 
 #[derive(Clone, Debug, PartialEq, Eq, Hash)]
@@ -334,9 +340,38 @@ impl Driver {
     pub fn apply(&mut self, op: &Op) -> OpInfo {
         let before = self.fingerprint();
         let mut info = OpInfo::default();
+        let log_before = self
+            .filter_log
+            .as_ref()
+            .map_or(0, |l| l.shown.lock().unwrap().len());
+        let fifo_before = if matches!(op, Op::Fifo { .. }) {
+            Some(self.table_keys())
+        } else {
+            None
+        };
         let res = self.apply_inner(op, &mut info);
         if let Err(e) = res {
             info.err = Some(e);
+        }
+        if self.filter_log.is_some() {
+            self.absorb_filter_log(log_before, before.seqno, &mut info);
+        }
+        if let Some(tk) = fifo_before {
+            let now: std::collections::BTreeSet<u64> =
+                self.table_keys().into_iter().map(|(id, _)| id).collect();
+            for (id, keys) in tk {
+                if !now.contains(&id) {
+                    info.dropped_tables.push(id);
+                    for w in &mut self.model.writes {
+                        if w.loc == Loc::Persisted
+                            && w.fifo_dropped_at.is_none()
+                            && keys.iter().any(|(k, s)| *k == w.key && *s == w.seqno)
+                        {
+                            w.fifo_dropped_at = Some(before.seqno);
+                        }
+                    }
+                }
+            }
         }
         let after = self.fingerprint();
         info.effective = before != after || matches!(op, Op::Reopen);
@@ -540,6 +575,74 @@ impl Driver {
                 }
             }
             Ok(())
+        }
+    }
+
+    /// (table id, [(key, seqno)]) for every table of the current version
+    pub fn table_keys(&self) -> Vec<(u64, Vec<(Vec<u8>, SeqNo)>)> {
+        let v = self.t().current_version();
+        let mut out = vec![];
+        for t in v.iter_tables() {
+            let mut ks = vec![];
+            for it in t.iter().flatten() {
+                ks.push((it.key.user_key.to_vec(), it.key.seqno));
+            }
+            out.push((t.id(), ks));
+        }
+        out
+    }
+
+    /// Applies what the instrumented compaction filter decided during the last op to the model.
+    fn absorb_filter_log(&mut self, from: usize, c: SeqNo, info: &mut OpInfo) {
+        use crate::cfilter::VerdictSpec;
+        use crate::model::FilterEffect;
+        let Some(log) = &self.filter_log else { return };
+        let shown: Vec<crate::cfilter::Shown> = log.shown.lock().unwrap()[from..].to_vec();
+        info.filter_shown = shown.len();
+        for sh in shown {
+            let val = match &sh.value {
+                Ok(v) => v.clone(),
+                Err(e) => {
+                    info.filter_anomalies
+                        .push(format!("filter shown key {:?} but value() failed: {e}", sh.key));
+                    continue;
+                }
+            };
+            // identify the write by its (unique) current value
+            let idx = self.model.writes.iter().position(|w| {
+                w.key == sh.key && w.loc != Loc::Lost && w.value_at(SeqNo::MAX).as_deref() == Some(&val[..])
+            });
+            let Some(idx) = idx else {
+                info.filter_anomalies.push(format!(
+                    "filter shown ({:?}, {:?}) which is no live value of the model",
+                    sh.key,
+                    String::from_utf8_lossy(&val)
+                ));
+                continue;
+            };
+            let n_writes = self
+                .model
+                .writes
+                .iter()
+                .filter(|w| w.key == sh.key && w.loc != Loc::Lost)
+                .count();
+            let eff = match sh.verdict {
+                VerdictSpec::Keep => None,
+                VerdictSpec::Remove => Some(FilterEffect::Remove),
+                VerdictSpec::ReplaceSmall | VerdictSpec::ReplaceBig => {
+                    Some(FilterEffect::Replace(sh.replacement.clone().unwrap_or_default()))
+                }
+                VerdictSpec::RemoveWeak | VerdictSpec::Destroy => {
+                    if n_writes == 1 {
+                        Some(FilterEffect::Remove)
+                    } else {
+                        Some(FilterEffect::Unconstrained)
+                    }
+                }
+            };
+            if let Some(e) = eff {
+                self.model.writes[idx].filtered.push((c, e));
+            }
         }
     }
 
